@@ -46,7 +46,7 @@ LAYERS = {
     'C03': ({'state.rows', 'state.packs', 'state.loose'}, None),
     'C09': ({'state.rowkeys', 'state.packs', 'state.loose', 'views.count', 'outcome'},
             {'damage', 'addLoose', 'addPacked', 'packAll', 'import', 'clean', 'loosen', 'reopen'}),
-    'C10': ({'verdict', 'views.meta', 'views.totals', 'state.rows', 'views.get'}, {'packAll', 'repack', 'repackOne', 'addPacked', 'addLoose'}),
+    'C10': ({'verdict', 'views.meta', 'views.totals', 'state.rows', 'views.get'}, {'packAll', 'repack', 'repackOne', 'addPacked', 'addLoose', 'import'}),
     'C11': ({'outcome', 'views.has', 'views.get', 'views.list', 'state.packs', 'state.rows'}, {'delete', 'repack', 'repackOne'}),
     'C12': ({'views.validate'}, None),
     'C13': ({'state.packs', 'state.stray'}, {'addLoose', 'addPacked', 'packAll', 'clean', 'import', 'reopen', 'loosen'}),
@@ -87,6 +87,11 @@ def run_case(prop: str, profile: str, case_id: int, ops: list | None = None) -> 
         drv = common.Driver()
         runner = store.Runner(drv, pool, cfgs, scratch, res)
         runner.numbering = (prop == 'C13')
+        # a third of the histories leave the handle alone between operations: the views (which go through the handle and
+        # refresh its sessions and caches) are not asked, only what is on disk is compared after every step
+        if runner.check_views and common.rng_for(prop, profile, 'quiet', case_id).random() < 0.33:
+            runner.check_views = False
+            res.bump('quiet_handle_cases')
         if ops is None:
             rng = common.rng_for(prop, profile, 'ops', case_id)
             n = rng.randint(*pr['nops'])
